@@ -143,3 +143,72 @@ func VerifC20_Combined() {
 	}
 	zz.Cover("C20.iter.done")
 }
+
+// VerifC20_SetUpTwice: the SAME combined scenario value set up more than once (an instance executed twice, the
+// value registered under two names, a re-run after a setup that aborted part-way): round 1 has arbitrary setup
+// behaviours (it may stop early), round 2 sets up cleanly; in round 2 every setup runs once, in order, and each of
+// two iterations invokes every component exactly once, in order, with nothing left over from round 1.
+//
+//verif:unroll 40
+func VerifC20_SetUpTwice() {
+	n := zz.Choice("n", 2) + 1
+	var log []c20Event
+	round, iter := 1, 0
+	var comps []testing.ScenarioFn
+	for i := 0; i < n; i++ {
+		i := i
+		sb := zz.Int("setupBeh", i)
+		zz.Assume(sb >= 0)
+		zz.Assume(sb < c20N)
+		comps = append(comps, func(t *testing.T) testing.RunFn {
+			log = append(log, c20Event{i, 0, t})
+			if round == 1 {
+				c20Act(t, sb)
+			}
+			r := round
+			return func(t *testing.T) {
+				log = append(log, c20Event{i + 100*r, iter, t})
+			}
+		})
+	}
+	combined := CombineScenarios(comps...)
+	s1, _ := testing.NewTWithOptions("scn", testing.WithIteration("setup"), testing.WithLogger(slog.Default()))
+	var run1 testing.RunFn
+	c20Guarded(s1, func(t *testing.T) { run1 = combined(t) })
+	if run1 != nil {
+		iter = 1
+		h, _ := testing.NewTWithOptions("scn", testing.WithLogger(slog.Default()))
+		h.Reset("1")
+		c20Guarded(h, run1)
+	}
+	// ---- round 2 on the same combined value
+	round = 2
+	before := len(log)
+	s2, _ := testing.NewTWithOptions("scn", testing.WithIteration("setup"), testing.WithLogger(slog.Default()))
+	var run2 testing.RunFn
+	c20Guarded(s2, func(t *testing.T) { run2 = combined(t) })
+	zz.Cover("C20.twice.second_setup_done")
+	zz.CoverIf("C20.twice.first_setup_aborted", run1 == nil)
+	zz.Assert("C20.twice.second_setup_runs_each_component_once", len(log)-before == n && run2 != nil && !s2.Failed())
+	if len(log)-before != n || run2 == nil {
+		return
+	}
+	for i := 0; i < n; i++ {
+		zz.Assert("C20.twice.second_setup_in_order", log[before+i].comp == i && log[before+i].phase == 0 && log[before+i].handle == s2)
+	}
+	for it := 1; it <= 2; it++ {
+		iter = it
+		h, _ := testing.NewTWithOptions("scn", testing.WithLogger(slog.Default()))
+		h.Reset("1")
+		b := len(log)
+		c20Guarded(h, run2)
+		zz.Assert("C20.twice.iteration_runs_each_component_exactly_once", len(log)-b == n)
+		if len(log)-b != n {
+			return
+		}
+		for i := 0; i < n; i++ {
+			e := log[b+i]
+			zz.Assert("C20.twice.iteration_runs_this_rounds_components_in_order", e.comp == i+200 && e.phase == it && e.handle == h)
+		}
+	}
+}
